@@ -95,7 +95,9 @@ func HC12_World() {
 	prof, capInc, relInc := 0, 1, 1
 	npre := 2
 	if vTier() == 1 {
-		prof, capInc, relInc = hConfig2()
+		if vChoice("config", 2) == 1 {
+			prof, capInc, relInc = 1, 2, 2
+		}
 		npre = 5
 	}
 	x := hNew(prof, 6, capInc, relInc)
